@@ -521,12 +521,15 @@ pub fn format_print(strs: &[String]) -> Result<String, String> {
         for s in &strs[1..] { out.push_str(s); }
         return Ok(out);
     }
-    if markers != nargs { return Err("print: marker/argument count mismatch".into()); }
+    // k-th argument in place of the k-th marker. More arguments than markers: the rest is appended
+    // (the repository's test_format_for_print_pred: "Hello, %s. " + Dave + "You're ..."). Fewer: an unfilled
+    // marker is replaced by nothing, the text around it stays.
     let mut out = parts[0].to_string();
     for i in 0..markers {
-        out.push_str(&strs[i + 1]);
+        if i < nargs { out.push_str(&strs[i + 1]); }
         out.push_str(parts[i + 1]);
     }
+    for i in markers..nargs { out.push_str(&strs[i + 1]); }
     Ok(out)
 }
 
